@@ -261,11 +261,17 @@ func (c *ctx) checkZSet(k string) int {
 // extra commands that fail: wrong kind of argument, over-long field
 func badCommand(t *rapid.T, p *gen.Pool) []string {
 	k := rapid.SampledFrom(p.Keys).Draw(t, "badkey")
-	long := strings.Repeat("F", 1025)
+	m := func() string { return rapid.SampledFrom(p.Members).Draw(t, "badm") }
+	long := strings.Repeat("F", 10241) // MaxSubKeyLen + 1
 	return rapid.SampledFrom([][]string{
 		{"hincrby", k, "a", "notanumber"}, {"zadd", k, "notafloat", "a"}, {"zadd", k, "1", "a", "x", "b"}, {"hset", k, long, "v"},
-		{"sadd", k, "a", long}, {"zadd", k, "1", long}, {"hmset", k, "a", "1", long, "2"}, {"lset", k, "99", "v"}, {"zincrby", k, "x", "a"},
-		{"hdel", k}, {"sadd", k}, {"spop", k, "0"}, {"ltrim", k, "a", "b"}, {"zremrangebyscore", k, "a", "b"},
+		{"lset", k, "99", "v"}, {"zincrby", k, "x", "a"}, {"hdel", k}, {"sadd", k}, {"spop", k, "0"}, {"ltrim", k, "a", "b"}, {"zremrangebyscore", k, "a", "b"},
+		// commands that fail on a LATER argument, after earlier ones were already put into the write batch:
+		// the error reply must leave nothing behind
+		{"sadd", k, m(), long}, {"sadd", k, m(), m(), long}, {"srem", k, m(), long}, {"srem", k, m(), m(), long},
+		{"hmset", k, m(), "1", long, "2"}, {"hmset", k, m(), "1", m(), "2", long, "3"}, {"hdel", k, m(), long}, {"hdel", k, m(), m(), long},
+		{"zadd", k, "1", m(), "2", long}, {"zadd", k, "1", m(), "2", m(), "3", long}, {"zrem", k, m(), long}, {"zrem", k, m(), m(), long},
+		{"zadd", k, "1", m(), "notafloat", m()},
 	}).Draw(t, "bad")
 }
 
@@ -335,10 +341,10 @@ func runCase(t *rapid.T, engine, recName string) {
 		mode := rapid.IntRange(0, 9).Draw(t, "mode")
 		var cmds [][]string
 		switch {
-		case mode == 0:
+		case mode <= 1:
 			cmds = [][]string{badCommand(t, pool)}
 			labels["failing_command"] = true
-		case mode <= 2:
+		case mode <= 3:
 			// several writes inside one apply batch
 			k := rapid.IntRange(2, 6).Draw(t, "batch")
 			for j := 0; j < k; j++ {
